@@ -5,6 +5,7 @@ package main
 
 import (
 	"context"
+	"errors"
 	"fmt"
 	"go/ast"
 	"go/token"
@@ -239,6 +240,39 @@ func facts(f *hc.Facts) {
 		f.Missing("disconnectDelayCoeffInterval", "c.pingDelayDisconnect(ctx, int(<d>.Seconds())) not found in pingLoop")
 		f.Missing("disconnectDelayCoeffTimeout", "…")
 	}
+	// what makes the loop give up: the error returned by the tick's ping (whatever its cause: the
+	// deadline, the parent context, a failed write) — not some other condition
+	failsOn := "other"
+	if pl != nil {
+		ast.Inspect(pl.Body, func(n ast.Node) bool {
+			is, ok := n.(*ast.IfStmt)
+			if !ok || !strings.Contains(f.Src(is.Body), `"disconnect (pong missed)"`) {
+				return true
+			}
+			cond := flat(f.Src(is.Cond))
+			if cond != "err != nil" || is.Init == nil {
+				failsOn = "other: if " + cond
+				return false
+			}
+			as, ok := is.Init.(*ast.AssignStmt)
+			if !ok || len(as.Lhs) != 1 || len(as.Rhs) != 1 || f.Src(as.Lhs[0]) != "err" {
+				return false
+			}
+			rhs := as.Rhs[0]
+			if ce, ok := rhs.(*ast.CallExpr); ok {
+				if fl, ok := ce.Fun.(*ast.FuncLit); ok && len(fl.Body.List) > 0 { // err := func() error { …; return c.pingDelayDisconnect(…) }()
+					if rs, ok := fl.Body.List[len(fl.Body.List)-1].(*ast.ReturnStmt); ok && len(rs.Results) == 1 {
+						rhs = rs.Results[0]
+					}
+				}
+			}
+			if ce, ok := rhs.(*ast.CallExpr); ok && flat(f.Src(ce.Fun)) == "c.pingDelayDisconnect" {
+				failsOn = "ping-error"
+			}
+			return false
+		})
+	}
+	f.Bool("pingLoopFailsOnPingError", failsOn == "ping-error", "pingLoop gives up iff the tick's pingDelayDisconnect returned an error ("+failsOn+")")
 	f.Bool("pingLoopPingsOnTick", onTick, "pingLoop pings on <-ticker.C() of c.clock.Ticker(c.pingInterval)")
 	f.Bool("pingLoopReturnsError", ret, `pingLoop returns errors.Wrap(err, "disconnect (pong missed)") when the ping fails`)
 	// Run starts pingLoop in the task group and returns the group's error
@@ -293,10 +327,11 @@ func lockSection(f *hc.Facts, fd *ast.FuncDecl, mu, expr string) bool {
 // ---------------------------------------------------------------------------------- transport
 
 type written struct {
-	typeID  uint32
-	pingID  int64
-	delay   int
-	at      time.Time
+	typeID     uint32
+	pingID     int64
+	delay      int
+	at         time.Time
+	sendFailed bool
 }
 
 // capture decrypts every written frame with the server-side cipher and reports ping requests.
@@ -306,6 +341,12 @@ type capture struct {
 	frames chan written
 	mu     sync.Mutex
 	errs   []string
+	// fault injection (keep-alive fault scenarios): after `healthy` ping frames have been written,
+	// Send of a ping fails as `fault` says; recvErr, when closed, makes Recv fail.
+	fault   string // "", "send-error", "send-error-delayed", "send-blocks"
+	healthy int
+	pings   int
+	recvErr chan struct{}
 }
 
 func (t *capture) Send(ctx context.Context, b *bin.Buffer) error {
@@ -334,10 +375,42 @@ func (t *capture) Send(ctx context.Context, b *bin.Buffer) error {
 	default:
 		return nil // get_future_salts, acks, …
 	}
+	t.mu.Lock()
+	t.pings++
+	faulty := t.fault != "" && t.pings > t.healthy
+	t.mu.Unlock()
+	if faulty {
+		w.sendFailed = true
+		t.frames <- w
+		switch t.fault {
+		case "send-error":
+			return errors.New("write: broken pipe")
+		case "send-error-delayed": // the error comes after part of the frame went out
+			select {
+			case <-time.After(40 * time.Millisecond):
+			case <-ctx.Done():
+			}
+			return errors.New("write: connection reset by peer")
+		case "send-blocks": // a full socket buffer: the write returns only when its deadline passes
+			<-ctx.Done()
+			return ctx.Err()
+		}
+	}
 	t.frames <- w
 	return nil
 }
-func (t *capture) Recv(ctx context.Context, b *bin.Buffer) error { <-ctx.Done(); return ctx.Err() }
+func (t *capture) Recv(ctx context.Context, b *bin.Buffer) error {
+	if t.recvErr != nil {
+		select {
+		case <-t.recvErr:
+			return errors.New("read: connection reset by peer")
+		case <-ctx.Done():
+			return ctx.Err()
+		}
+	}
+	<-ctx.Done()
+	return ctx.Err()
+}
 func (t *capture) Close() error                                  { return nil }
 
 var _ transport.Conn = (*capture)(nil)
@@ -593,6 +666,41 @@ func runLTS(c *hc.Ctx, r *hc.RNG) (line, impl string, nontrivial bool, err error
 				kinds["pong-sent-twice-in-a-row"]++
 			}
 			if err := l.pong(id, twice); err != nil {
+				return l.line(), "", false, err
+			}
+		case k == 8 && len(live) > 0:
+			// the race the select allows: the matching pong and the end of the context arrive
+			// together (either order), the ping may leave through either branch — and whatever it
+			// leaves behind must not let a LATER ping succeed without its own pong
+			// only a ping whose own channel is the one registered under its id (ids collide)
+			var own []int
+			for _, q := range live {
+				if t, ok := l.reg[l.pings[q].id]; ok && t == q {
+					own = append(own, q)
+				}
+			}
+			if len(own) == 0 {
+				continue
+			}
+			kinds["pong-races-with-cancel"]++
+			p := own[r.Intn(len(own))]
+			pc := l.pings[p]
+			cancelled[p] = len(l.trace)
+			if r.Bool() {
+				pc.cancel()
+				l.deliver(pc.id)
+			} else {
+				l.deliver(pc.id)
+				pc.cancel()
+			}
+			if l.aborted {
+				continue
+			}
+			delete(l.reg, pc.id)
+			l.pongAt[pc.id] = append(l.pongAt[pc.id], len(l.trace))
+			l.trace = append(l.trace, fmt.Sprintf("p%d", pc.id))
+			l.snaps = append(l.snaps, "?") // the ping may or may not have deregistered yet
+			if err := l.await(p); err != nil {
 				return l.line(), "", false, err
 			}
 		default:
@@ -859,6 +967,75 @@ func runTiming(seed uint64, interval, timeout time.Duration) (res timingResult, 
 	return res, nil
 }
 
+// runFault: every way a keep-alive ping can go unanswered must end Run with an error.  After
+// `healthy` acknowledged ticks the fault happens: the peer goes silent, Send fails at once, Send
+// fails after a delay, Send blocks until its deadline, or Recv fails.
+func runFault(seed uint64, fault string, healthy int, interval, timeout time.Duration) (res timingResult, herr error) {
+	r := hc.NewRNG(seed)
+	var key crypto.Key
+	r.Read(key[:])
+	ak := key.WithID()
+	tr := &capture{key: ak, cipher: crypto.NewServerCipher(r.Fork()), frames: make(chan written, 64), healthy: healthy}
+	switch fault {
+	case "send-error", "send-error-delayed", "send-blocks":
+		tr.fault = fault
+	case "recv-error":
+		tr.recvErr = make(chan struct{})
+	}
+	conn := mtproto.New(func(ctx context.Context) (transport.Conn, error) { return tr, nil }, mtproto.Options{
+		Random: r.Fork(), Key: ak, Cipher: crypto.NewClientCipher(r.Fork()), CompressThreshold: -1,
+		PingInterval: interval, PingTimeout: timeout,
+	})
+	ctx, cancel := context.WithCancel(context.Background())
+	defer cancel()
+	runDone := make(chan error, 1)
+	var endedAt time.Time
+	go func() {
+		err := conn.Run(ctx, func(ctx context.Context) error { <-ctx.Done(); return ctx.Err() })
+		endedAt = time.Now()
+		runDone <- err
+	}()
+	res.input = fmt.Sprintf("keepalive-fault fault=%s after-acknowledged-ticks=%d interval=%s timeout=%s", fault, healthy, interval, timeout)
+	var w written
+	for k := 0; k <= healthy; k++ {
+		select {
+		case w = <-tr.frames:
+		case err := <-runDone:
+			return res, fmt.Errorf("Run ended before tick %d: %v (%s)", k, err, res.input)
+		case <-time.After(interval + watchdog):
+			return res, fmt.Errorf("keep-alive loop wrote no ping within interval + watchdog (%s)", res.input)
+		}
+		if k < healthy {
+			if e := safeHandle(conn, &mt.Pong{MsgID: 4, PingID: w.pingID}); e != nil {
+				return res, e
+			}
+		}
+	}
+	if fault == "recv-error" {
+		close(tr.recvErr)
+	}
+	res.delay = w.delay
+	lat := startLateness()
+	// generous: the verdict "still running" is only given long after every bound
+	limit := timeout + 4*time.Second
+	select {
+	case res.runErr = <-runDone:
+		res.ended = true
+		res.waited = endedAt.Sub(w.at)
+	case <-time.After(limit):
+	}
+	res.worstLate = lat.end()
+	if !res.ended && res.worstLate > 200*time.Millisecond { // a very late machine: give it the watchdog
+		select {
+		case res.runErr = <-runDone:
+			res.ended = true
+			res.waited = endedAt.Sub(w.at)
+		case <-time.After(watchdog):
+		}
+	}
+	return res, nil
+}
+
 // ---------------------------------------------------------------------------------- run
 
 func run(c *hc.Ctx) error {
@@ -1020,11 +1197,82 @@ func run(c *hc.Ctx) error {
 		}
 	}
 
+	// ---- part D: every way a keep-alive ping can go unanswered ends Run
+	{
+		faults := []string{"no-pong", "send-error", "send-error-delayed", "send-blocks", "recv-error"}
+		nF := c.N(10, 40)
+		fres := make([]timingResult, nF)
+		ferr := make([]error, nF)
+		fk := make([]string, nF)
+		var fwg sync.WaitGroup
+		fsem := make(chan struct{}, 10)
+		for i := 0; i < nF; i++ {
+			fk[i] = faults[i%len(faults)]
+			healthy := r.Intn(3)
+			seed := r.U64()
+			fwg.Add(1)
+			go func(i int) {
+				defer fwg.Done()
+				fsem <- struct{}{}
+				defer func() { <-fsem }()
+				fres[i], ferr[i] = runFault(seed, fk[i], healthy, 60*time.Millisecond, 300*time.Millisecond)
+			}(i)
+		}
+		fwg.Wait()
+		for i, x := range fres {
+			if ferr[i] != nil {
+				return ferr[i]
+			}
+			c.Eval(x.input+fmt.Sprintf(" #%d", i), true)
+			c.Count("fault." + fk[i])
+			if !x.ended {
+				c.Fail("unanswered-ping-run-not-ended", x.input, fmt.Sprintf("the keep-alive ping could not be answered (%s) but Run was still running %s later (worst timer lateness of the machine meanwhile %s)", fk[i], 300*time.Millisecond+4*time.Second, x.worstLate))
+				continue
+			}
+			if x.runErr == nil {
+				c.Fail("unanswered-ping-run-no-error", x.input, "Run returned nil")
+			}
+			// the loop's verdict in the model: missed / write error → failed at that tick
+			out := "m"
+			if strings.HasPrefix(fk[i], "send-error") {
+				out = "w"
+			}
+			if fk[i] != "recv-error" {
+				var os []string
+				for k := 0; k < len(x.input) && false; k++ {
+				}
+				healthy := 0
+				fmt.Sscanf(x.input[strings.Index(x.input, "ticks=")+6:], "%d", &healthy)
+				for k := 0; k < healthy; k++ {
+					os = append(os, "o")
+				}
+				os = append(os, out)
+				lines = append(lines, "loop "+strings.Join(os, " "))
+				impls = append(impls, fmt.Sprintf("failed %d run-ends=true", healthy))
+			}
+		}
+	}
+
 	outs, err := c.Drv.Batch(lines)
 	if err != nil {
 		return err
 	}
 	for i, o := range outs {
+		if strings.HasPrefix(lines[i], "lts ") && strings.Contains(impls[i], "?") {
+			// a snapshot taken while a racing ping may or may not have deregistered is not compared
+			ip, mp := strings.SplitN(impls[i], " => ", 2), strings.SplitN(o, " => ", 2)
+			if len(ip) == 2 && len(mp) == 2 {
+				is, ms := strings.Split(ip[0], "|"), strings.Split(mp[0], "|")
+				if len(is) == len(ms) {
+					for j := range is {
+						if is[j] == "?" {
+							ms[j] = "?"
+						}
+					}
+					o = strings.Join(ms, "|") + " => " + mp[1]
+				}
+			}
+		}
 		if c.Compare(lines[i], impls[i], o) {
 			c.Res.TracesValidated++
 		}
